@@ -965,6 +965,50 @@ def u_rescale(ctx):
                     ctx.violation("rescaleobservation-not-affine", {"env": base.name, "obs": o, "got": got, "want": want})
         except Exception as e:
             ctx.violation("rescaleobservation-raises", {"env": mk.__name__, "error": f"{type(e).__name__}: {e}"[:300]})
+    # --- target ranges given as whole numbers (Python ints, integer arrays): the same affine map as with floats
+    from lerax.env.classic_control import ContinuousMountainCar
+
+    for mk in (Pendulum, Acrobot, MountainCar, ContinuousMountainCar):
+        for how in ("py-int", "int-array", "np-int"):
+            a, b = int(ctx.rng.integers(-5, 1)), int(ctx.rng.integers(2, 11))
+            cast = {"py-int": lambda v: v, "int-array": lambda v: jnp.asarray(v), "np-int": lambda v: np.int64(v)}[how]
+            try:
+                base = mk()
+                Wi, Wf = lw.RescaleObservation(base, cast(a), cast(b)), lw.RescaleObservation(base, float(a), float(b))
+                sp = _sp(base.observation_space)
+                lo, hi = sp[1].astype(np.float64), sp[2].astype(np.float64)
+                if not _sp_eq(_sp(Wi.observation_space), _sp(Wf.observation_space)):
+                    ctx.violation("rescaleobservation-space-mismatch", {"env": base.name, "min": a, "max": b, "bounds_given_as": how,
+                                                                        "got": repr(Wi.observation_space)})
+                for j in range(ctx.n(2, 8)):
+                    ws = Wi.initial(key=ctx.key(950 + j))
+                    o = np.asarray(base.observation(ws.unwrapped, key=ctx.key(1)), np.float64)
+                    want = a + (o - lo) * (b - a) / (hi - lo)
+                    got = np.asarray(Wi.observation(ws, key=ctx.key(1)), np.float64)
+                    ctx.monitor("rescale_integer_bounds_points")
+                    ctx.case({"env": base.name, "j": j, "min": a, "max": b, "as": how}, nontrivial=True, cls=f"rescale/integer-bounds/{base.name}/{how}")
+                    if not np.all(np.abs(got - want) <= 8 * EPS * (abs(a) + abs(b) + (np.abs(lo) + np.abs(hi)) * (b - a) / (hi - lo))):
+                        ctx.violation("rescaleobservation-not-affine", {"env": base.name, "obs": o, "got": got, "want": want,
+                                                                        "min": a, "max": b, "bounds_given_as": how})
+                if mk in (Pendulum, ContinuousMountainCar):
+                    Ai = lw.RescaleAction(base, cast(a), cast(b))
+                    asp = _sp(base.action_space)
+                    alo, ahi = asp[1].astype(np.float64), asp[2].astype(np.float64)
+                    ws = Ai.initial(key=ctx.key(960))
+                    for lam in (0.0, 0.3, 1.0):
+                        x = np.full(alo.shape, a + lam * (b - a), np.float32)
+                        want_a = alo + (x.astype(np.float64) - a) * (ahi - alo) / (b - a)
+                        ref_state = base.transition(ws.unwrapped, jnp.asarray(want_a.astype(np.float32)), key=ctx.key(2))
+                        got_state = Ai.transition(ws, jnp.asarray(x), key=ctx.key(2)).unwrapped
+                        ctx.monitor("rescale_integer_bounds_points")
+                        d = _tree_diff(got_state, ref_state, 1e-5)
+                        if d:
+                            ctx.violation("rescaleaction-transition", {"env": base.name, "min": a, "max": b, "bounds_given_as": how,
+                                                                       "action": x, "inner_action_wanted": want_a, "diff": d})
+            except Exception as e:
+                ctx.violation("rescale-integer-bounds-raises", {"env": mk.__name__, "bounds_given_as": how, "min": a, "max": b,
+                                                                "error": f"{type(e).__name__}: {e}"[:300]})
+    ctx.require("rescale_integer_bounds_points", 20)
     ctx.notes["rescale_bound_stats"] = stats
     for m in ("rescale_box_forward_bound_points", "rescale_box_backward_bound_points", "rescale_action_transition_bound_points",
               "rescale_action_info_bound_points", "rescale_observation_bound_points", "rescale_action_transition_interior_points",
@@ -1239,6 +1283,7 @@ def u_lerax2gym(ctx):
             if d:
                 ctx.violation(f"{pre}-reset-observation-not-of-state", {"env": name, "diff": d})
             eps = 0
+            restarts = []
             for i in range(n_steps):
                 a = _adaptee_action(ctx.rng, asp, i)
                 ref = twin(env, s, _to_jax_action(a, asp), kk)
@@ -1259,6 +1304,7 @@ def u_lerax2gym(ctx):
                     eps += 1
                     ctx.monitor("adapter_episode_boundaries")
                     s = g.state
+                    restarts.append(digest(*__import__("jax").tree.leaves(s.unwrapped)))
                     if not fresh(s):
                         ctx.violation(f"{pre}-no-fresh-episode-after-done", {"env": name, "i": i})
                     d = _tree_diff(o, obs_of(env, s, kk), 1e-6 * (1 + _amax(o)))
@@ -1270,6 +1316,14 @@ def u_lerax2gym(ctx):
                         ctx.violation(f"{pre}-trajectory-diverges-from-twin", {"env": name, "i": i, "action": a, "diff": d})
                         break
                     s = g.state
+            # the adapter's hidden key must advance: with a continuous initial law the episodes it restarts on its
+            # own (no reset() in between) begin in pairwise different states, as the adapted env's do under new keys
+            own = [digest(*__import__("jax").tree.leaves(env.initial(key=jr.key(1000 + j)).unwrapped)) for j in range(8)]
+            if len(set(own)) == len(own) and len(restarts) >= 3:
+                ctx.monitor("adapter_restart_sets_judged")
+                if len(set(restarts)) < len(restarts):
+                    ctx.violation(f"{pre}-auto-restarted-episodes-begin-in-identical-states",
+                                  {"env": name, "restarts": len(restarts), "distinct": len(set(restarts))})
             # re-seeding a *used* adapter, including the seed 0 (falsy) and the same seed twice in a row
             for sd in (0, 1, 0, seed, 0):
                 oa, _ = g.reset(seed=sd)
@@ -1289,6 +1343,7 @@ def u_lerax2gym(ctx):
     ctx.require("adapter_steps", 100)
     ctx.require("adapter_episode_boundaries", 10)
     ctx.require("used_adapter_reseed_checks", 5)
+    ctx.require("adapter_restart_sets_judged", 2)
 
 
 def u_lerax2gymnax(ctx):
